@@ -80,7 +80,7 @@ namespace igris
             return *this;
         }
 
-        template <class It> static_vector(It b, It e)
+        template <class It> static_vector(It b, It e) : static_vector()
         {
             for (; b != e; ++b)
             {
@@ -88,7 +88,7 @@ namespace igris
             }
         }
 
-        static_vector(const std::initializer_list<T> &lst)
+        static_vector(const std::initializer_list<T> &lst) : static_vector()
         {
             for (auto &obj : lst)
             {
